@@ -274,7 +274,7 @@ class GetAccessorForUrl(Contract):
     use_at_call_sites = False
     configs = tuple(itertools.product(("/data/dataset", "file:///data/dataset", "precomputed://file:///data/dataset",
                                        "http://host/ds", "precomputed://https://host/ds/"),
-                                      ("sharded", "plain", "mixed", "missing", "garbage", "noscales", "emptyscales"),
+                                      ("sharded", "plain", "mixed", "missing", "garbage", "noscales", "emptyscales", "nullsharding"),
                                       ({}, {"flat": True, "gzip": False, "compresslevel": 3}))) + \
         (("ftp://host/x", "missing", {}), ("file://otherhost/data", "missing", {})) + \
         tuple((u, "missing", {}) for u in FILE_URL_DECODING)
@@ -284,6 +284,8 @@ class GetAccessorForUrl(Contract):
         self.cfg = cfg
         content = {"sharded": SHARDED_INFO, "plain": PLAIN_INFO, "mixed": MIXED_INFO, "garbage": b"{not json",
                    "noscales": b'{"@type": "neuroglancer_legacy_mesh"}',
+                   # a scale that says explicitly that it is not sharded (JSON null): a plain dataset
+                   "nullsharding": PLAIN_INFO[:-3] + b',"sharding":null}]}',
                    "emptyscales": b'{"type":"image","data_type":"uint8","num_channels":1,"scales":[]}'}.get(kind)
         if "http" in url:
             w = get_http()
@@ -398,4 +400,10 @@ def _use(fn):
 
 for _cls in (HttpAccessorInit, HttpFetchFile, HttpFileExists, HttpFetchChunk):
     _cls.replay = _use(_native.http_sweep)
+    # when the unit is undecided (e.g. the code starts using parts of `requests` the model does not have: streams, headers),
+    # the native sweep -- fake sessions plus a loopback server emulating gzip_static -- runs as its BOUNDED fallback
+    _cls.bounded_models = lambda self, cfg, tier: iter([{}])
+    _cls.bounded_bound = "native sweep of contracts/_native.py: 5 RequestException kinds, statuses 200/403/404/500, loopback gzip_static server"
 GetAccessorForUrl.replay = _use(_native.dispatch_sweep)
+GetAccessorForUrl.bounded_models = lambda self, cfg, tier: iter([{}])
+GetAccessorForUrl.bounded_bound = "native sweep: six info layouts x two URL spellings over a fake session"
